@@ -62,6 +62,12 @@ func zzC03_distinct() {
 	cc := zzNewConn(s, zzConnCfg{midSeed: 1000, nstart: 2, maxRetrans: 4})
 	a := &zzCall{token: message.Token{0xA1, 0xA2}}
 	b := &zzCall{token: message.Token{0xB1}}
+	if symChoose("tokens", 2) == 1 {
+		// caller-chosen tokens that differ only in length / leading zero bytes are still distinct tokens
+		a.token = message.Token{0x00, 0x01}
+		b.token = message.Token{0x01}
+		symCover("lookalike-tokens")
+	}
 	tagA, tagB := symU8("tagA"), symU8("tagB")
 	go zzDo(cc, a)
 	go zzDo(cc, b)
@@ -80,10 +86,10 @@ func zzC03_distinct() {
 	symCover("both-returned")
 	symAssert(a.err == nil && b.err == nil, "both requests were answered, so both calls succeed")
 	if a.err == nil {
-		symAssert(len(a.tok) == 2 && a.tok[0] == 0xA1 && len(a.body) == 1 && a.body[0] == tagA, "caller A gets the response carrying its token and the content produced for it")
+		symAssert(len(a.tok) == 2 && a.tok[0] == a.token[0] && a.tok[1] == a.token[1] && len(a.body) == 1 && a.body[0] == tagA, "caller A gets the response carrying its token and the content produced for it")
 	}
 	if b.err == nil {
-		symAssert(len(b.tok) == 1 && b.tok[0] == 0xB1 && len(b.body) == 1 && b.body[0] == tagB, "caller B gets the response carrying its token and the content produced for it")
+		symAssert(len(b.tok) == 1 && b.tok[0] == b.token[0] && len(b.body) == 1 && b.body[0] == tagB, "caller B gets the response carrying its token and the content produced for it")
 	}
 	symAssert(a.resp != b.resp || a.resp == nil, "no response object is delivered to two callers")
 	symAssert(cc.tokenHandlerContainer.Length() == 0, "no token continuation is left behind")
